@@ -113,7 +113,7 @@ func run(c *vlib.Ctx) {
 	nv := len(vbsForms) * (maxSmall + 1)
 	c.Cases("vbs-grid", nv, vbsGrid)
 	c.Cases("vbs-hostile", len(vbsForms)*4, vbsHostile)
-	c.Cases("vbs-large", c.N(48, 600), vbsLarge)
+	c.Cases("vbs-large", c.N(48, 300), vbsLarge)
 
 	// fs-grid: thorough = full product reader x form x layout x length; quick =
 	// every length x two layouts (whole file; region inside a file with a
@@ -124,8 +124,8 @@ func run(c *vlib.Ctx) {
 		nf = 2 * len(fsForms) * len(layouts) * (maxSmall + 1)
 	}
 	c.Cases("fs-grid", nf, fsGrid)
-	c.Cases("fs-history", c.N(120, 4000), fsHistory)
-	c.Cases("fs-url", c.N(64, 1200), fsURL)
+	c.Cases("fs-history", c.N(120, 2000), fsHistory)
+	c.Cases("fs-url", c.N(64, 600), fsURL)
 	if !c.Quick() {
 		// every batch enumerates its share of the two grids completely
 		c.Exhaustive()
